@@ -3,11 +3,13 @@
     Model: Model/ValueSummary.v (guards = reduced ordered BDD trees, [expr_to_guard],
     [ValueSummary<ExprRef>] operations, histories [vrun debug fixed]).
     Meaning: Spec/GuardSem.v ([bdd_eval], [count_true], [denotes], [bsem], [tval]).
-    [fixed = false] is patronus-dse as it is; [fixed = true] sorts the delete list of
-    [coalesce_entries] (the proposed one-line repair).
+    [fixed = true] sorts the delete list of [coalesce_entries] (/repo e25c4dc; [false] = before).
+    [rp : repairs] switches the three further repairs of patches/C20-1..3 on
+    ([no_repairs] = /repo without them, [all_repairs] = with all of them).  Theorems that
+    quantify over [rp] hold for every combination.
 
     Only statements, [exact lemma] proofs, [Print Assumptions], examples. *)
-From Patronus Require Import GuardSem BddProofs GuardProofs SummaryProofs CoalesceProofs IteImportProofs HistoryProofs BddCanonProofs.
+From Patronus Require Import GuardSem BddProofs GuardProofs SummaryProofs CoalesceProofs IteImportProofs HistoryProofs BddCanonProofs RepairProofs.
 Open Scope N_scope.
 
 (* ---------------------------------------------------------------- partition_inv *)
@@ -17,7 +19,7 @@ Open Scope N_scope.
     not pairwise different.  Recorded as finding  key=coalesce:overlap. *)
 Theorem C20_partition_inv_refuted :
   exists (prog : list vop) (st : vstate) (s : summary) (v : nat -> bool),
-    (forall debug, vrun debug false vinit prog = Ok st) /\ In s (vs_sums st) /\
+    (forall debug, vrun no_repairs debug false vinit prog = Ok st) /\ In s (vs_sums st) /\
     count_true v s = 2%nat /\ ~ NoDup (map snd s).
 Proof. exact partition_refuted_lemma. Qed.
 Print Assumptions C20_partition_inv_refuted.
@@ -26,8 +28,8 @@ Print Assumptions C20_partition_inv_refuted.
     new / apply_bin_op (any operator, any node order) / apply_ite / coalesce /
     import_into_guard / expr_to_guard, exactly one guard is true under every valuation. *)
 Theorem C20_partition_inv_fixed :
-  forall (debug : bool) (prog : list vop) (st : vstate),
-    vrun debug true vinit prog = Ok st ->
+  forall (rp : repairs) (debug : bool) (prog : list vop) (st : vstate),
+    vrun rp debug true vinit prog = Ok st ->
     forall s, In s (vs_sums st) -> forall v : nat -> bool, count_true v s = 1%nat.
 Proof. exact partition_inv_lemma. Qed.
 Print Assumptions C20_partition_inv_fixed.
@@ -36,8 +38,8 @@ Print Assumptions C20_partition_inv_fixed.
     function - under every valuation some guard is true and all true entries carry the
     same value. *)
 Theorem C20_functional_inv :
-  forall (debug fixed : bool) (prog : list vop) (st : vstate),
-    vrun debug fixed vinit prog = Ok st ->
+  forall (rp : repairs) (debug fixed : bool) (prog : list vop) (st : vstate),
+    vrun rp debug fixed vinit prog = Ok st ->
     forall s, In s (vs_sums st) -> forall v : nat -> bool, exists x, denotes v s x.
 Proof. exact functional_inv_lemma. Qed.
 Print Assumptions C20_functional_inv.
@@ -54,13 +56,13 @@ Print Assumptions C20_coalesce_outside_known.
 (** per operation: the partition is preserved (coalesce: repaired code) *)
 Theorem C20_partition_ops :
   (forall x v, count_true v (vs_new x) = 1%nat) /\
-  (forall debug rank op a b r v, apply_bin_op debug rank op a b = Ok r ->
+  (forall rp debug rank op a b r v, apply_bin_op rp debug rank op a b = Ok r ->
      count_true v a = 1%nat -> count_true v b = 1%nat -> count_true v r = 1%nat) /\
-  (forall debug t c tr fl t' r v, apply_ite debug t c tr fl = Ok (t', r) ->
+  (forall rp debug t c tr fl t' r v, apply_ite rp debug t c tr fl = Ok (t', r) ->
      count_true v tr = 1%nat -> count_true v fl = 1%nat -> count_true v r = 1%nat) /\
   (forall es r v, coalesce_entries true es = Ok r -> count_true v es = 1%nat -> count_true v r = 1%nat) /\
   (forall es r, coalesce_entries true es = Ok r -> NoDup (map snd r)) /\
-  (forall debug t s t' r v, import_into_guard debug t s = Ok (t', r) -> count_true v r = 1%nat).
+  (forall rp debug t s t' r v, import_into_guard rp debug t s = Ok (t', r) -> count_true v r = 1%nat).
 Proof.
   exact (conj new_partition (conj bin_partition (conj ite_partition
         (conj coalesce_fixed_partition (conj coalesce_fixed_values_distinct import_partition))))).
@@ -74,15 +76,15 @@ Print Assumptions C20_partition_ops.
     summaries with overlapping entries; [C20_denotes_den] turns it into a statement about
     the selected value [vs_den]. *)
 Theorem C20_den_commutes_bin_op :
-  forall debug rank op a b r (v : nat -> bool) x y,
-    apply_bin_op debug rank op a b = Ok r ->
+  forall rp debug rank op a b r (v : nat -> bool) x y,
+    apply_bin_op rp debug rank op a b = Ok r ->
     denotes v a x -> denotes v b y -> denotes v r (op x y).
 Proof. exact bin_denotes. Qed.
 Print Assumptions C20_den_commutes_bin_op.
 
 Theorem C20_den_commutes_ite :
-  forall debug t c tr fl t' r (v : nat -> bool) xc xt xf,
-    apply_ite debug t c tr fl = Ok (t', r) ->
+  forall rp debug t c tr fl t' r (v : nat -> bool) xc xt xf,
+    apply_ite rp debug t c tr fl = Ok (t', r) ->
     denotes v c xc -> denotes v tr xt -> denotes v fl xf ->
     denotes v r (if bsem t' v xc then xt else xf).
 Proof. exact ite_denotes. Qed.
@@ -96,8 +98,8 @@ Proof. exact coalesce_denotes. Qed.
 Print Assumptions C20_den_commutes_coalesce.
 
 Theorem C20_den_commutes_import :
-  forall debug t s t' r (v : nat -> bool) x,
-    import_into_guard debug t s = Ok (t', r) -> denotes v s x ->
+  forall rp debug t s t' r (v : nat -> bool) x,
+    import_into_guard rp debug t s = Ok (t', r) -> denotes v s x ->
     denotes v r (if bsem t' v x then lit_true else lit_false).
 Proof. exact import_denotes. Qed.
 Print Assumptions C20_den_commutes_import.
@@ -115,9 +117,9 @@ Print Assumptions C20_denotes_den.
     symbol assignment [rho] iff the (well-typed, boolean) expression evaluates to 1. *)
 Theorem C20_guard_equiv :
   forall (rho : env), env_wf rho ->
-  forall debug t e t' g,
+  forall rp debug t e t' g,
     wt e = true -> expr_is_bool e = true ->
-    expr_to_guard debug t e = Ok (t', g) ->
+    expr_to_guard rp debug t e = Ok (t', g) ->
     bdd_eval (tval rho t') g = (ebv rho e =? 1).
 Proof. exact guard_equiv_lemma. Qed.
 Print Assumptions C20_guard_equiv.
@@ -126,8 +128,8 @@ Print Assumptions C20_guard_equiv.
     is the Boolean skeleton of the expression over the registered terminals; the terminal
     list only grows *)
 Theorem C20_guard_equiv_skeleton :
-  forall debug t e t' g,
-    expr_to_guard debug t e = Ok (t', g) ->
+  forall rp debug t e t' g,
+    expr_to_guard rp debug t e = Ok (t', g) ->
     extends t t' /\ covered t' e = true /\ forall v : nat -> bool, bdd_eval v g = bsem t' v e.
 Proof. exact expr_to_guard_sound. Qed.
 Print Assumptions C20_guard_equiv_skeleton.
@@ -135,8 +137,8 @@ Print Assumptions C20_guard_equiv_skeleton.
 (** [expr_to_guard] returns exactly on the [guardable] expressions ... *)
 Theorem C20_guard_total_on_guardable :
   forall debug e,
-    (guardable debug e = true -> forall t, exists t' g, e2g debug t e = Ok (t', g)) /\
-    (guardable debug e = false -> forall t, e2g debug t e = Panic).
+    (guardable debug e = true -> forall t, exists t' g, e2g no_repairs debug t e = Ok (t', g)) /\
+    (guardable debug e = false -> forall t, e2g no_repairs debug t e = Panic).
 Proof. exact (fun debug e => conj (fun H t => e2g_total debug e t H) (fun H t => e2g_panics debug e t H)). Qed.
 Print Assumptions C20_guard_total_on_guardable.
 
@@ -144,7 +146,7 @@ Print Assumptions C20_guard_total_on_guardable.
     expression on which [expr_to_guard] panics in every build
     (finding key=panic@patronus/src/expr/traversal.rs:73) *)
 Theorem C20_guard_total_refuted :
-  exists e, wt e = true /\ expr_is_bool e = true /\ forall debug t, expr_to_guard debug t e = Panic.
+  exists e, wt e = true /\ expr_is_bool e = true /\ forall debug t, expr_to_guard no_repairs debug t e = Panic.
 Proof. exact guard_panics_lemma. Qed.
 Print Assumptions C20_guard_total_refuted.
 
@@ -152,8 +154,8 @@ Print Assumptions C20_guard_total_refuted.
     (findings key=panic@patronus-dse/src/value_summary.rs:76 and :160) *)
 Theorem C20_debug_asserts_refuted :
   (exists e, wt e = true /\ expr_is_bool e = true /\
-     (forall t, expr_to_guard true t e = Panic) /\ (forall t, exists r, expr_to_guard false t e = Ok r)) /\
-  (exists prog, vrun true false vinit prog = Panic /\ exists st, vrun false false vinit prog = Ok st).
+     (forall t, expr_to_guard no_repairs true t e = Panic) /\ (forall t, exists r, expr_to_guard no_repairs false t e = Ok r)) /\
+  (exists prog, vrun no_repairs true true vinit prog = Panic /\ exists st, vrun no_repairs false true vinit prog = Ok st).
 Proof. exact (conj guard_debug_assert_lemma bin_debug_assert_lemma). Qed.
 Print Assumptions C20_debug_asserts_refuted.
 
@@ -161,9 +163,42 @@ Print Assumptions C20_debug_asserts_refuted.
     panics in release builds *)
 Theorem C20_no_panic :
   (forall fixed es, exists r, coalesce_entries fixed es = Ok r) /\
-  (forall rank op a b, exists r, apply_bin_op false rank op a b = Ok r).
+  (forall rp rank op a b, exists r, apply_bin_op rp false rank op a b = Ok r).
 Proof. exact (conj coalesce_no_panic bin_no_panic_release). Qed.
 Print Assumptions C20_no_panic.
+
+(* ---------------------------------------------------------------- the repaired variant *)
+
+(** [guard_equiv], unconditional: with the traversal and the closures repaired
+    (patches/C20-1, C20-2) [expr_to_guard] returns, in debug and release builds, for EVERY
+    well-typed boolean expression, and the guard it returns is equivalent to the expression
+    (no [guardable] restriction; [C20_guard_total_refuted] is about [no_repairs]). *)
+Theorem C20_guard_total_repaired :
+  forall rp debug t e,
+    r_traversal rp = true -> r_closures rp = true ->
+    wt e = true -> expr_is_bool e = true ->
+    exists t' g, expr_to_guard rp debug t e = Ok (t', g) /\
+      extends t t' /\
+      (forall v : nat -> bool, bdd_eval v g = bsem t' v e) /\
+      (forall rho, env_wf rho -> bdd_eval (tval rho t') g = (ebv rho e =? 1)).
+Proof. exact guard_total_repaired_lemma. Qed.
+Print Assumptions C20_guard_total_repaired.
+
+(** no panic left in either build: [apply_ite] / [import_into_guard] return whenever the
+    condition values are boolean; with the adjusted assertion (patches/C20-3) [apply_bin_op]
+    returns for every pair of summaries reachable by any history (any operator, any node
+    order); the history of [C20_debug_asserts_refuted] runs through. *)
+Theorem C20_no_panic_repaired :
+  (forall rp debug t c tr fl, r_traversal rp = true -> r_closures rp = true ->
+     (forall e, In e c -> expr_is_bool (snd e) = true) -> exists r, apply_ite rp debug t c tr fl = Ok r) /\
+  (forall rp debug t s, r_traversal rp = true -> r_closures rp = true ->
+     (forall e, In e s -> expr_is_bool (snd e) = true) -> exists r, import_into_guard rp debug t s = Ok r) /\
+  (forall rp debug prog st, r_assert rp = true -> vrun rp debug true vinit prog = Ok st ->
+     forall a b, In a (vs_sums st) -> In b (vs_sums st) ->
+     forall rank op, exists r, apply_bin_op rp debug rank op a b = Ok r) /\
+  (exists st, vrun all_repairs true true vinit binfalse_prog = Ok st).
+Proof. exact (conj ite_total (conj import_total (conj bin_total_reachable binfalse_repaired))). Qed.
+Print Assumptions C20_no_panic_repaired.
 
 (* ---------------------------------------------------------------- canonical guards *)
 
@@ -172,8 +207,8 @@ Print Assumptions C20_no_panic.
     guard-equality tests of the Rust code - common guards, is_true, is_false - are modelled
     by tests on the Boolean functions themselves.) *)
 Theorem C20_guards_canonical :
-  forall debug fixed prog st,
-    vrun debug fixed vinit prog = Ok st ->
+  forall rp debug fixed prog st,
+    vrun rp debug fixed vinit prog = Ok st ->
     forall g1 g2,
       (In g1 (vs_guards st) \/ exists s e, In s (vs_sums st) /\ In e s /\ fst e = g1) ->
       (In g2 (vs_guards st) \/ exists s e, In s (vs_sums st) /\ In e s /\ fst e = g2) ->
@@ -186,7 +221,7 @@ Print Assumptions C20_guards_canonical.
 (** the history of the refutation, on the repaired code: four operations deep, a
     partition under every valuation *)
 Example C20_example_fixed :
-  forall v, count_true v (last_sum (vrun false true vinit abba_prog)) = 1%nat.
+  forall v, count_true v (last_sum (vrun no_repairs false true vinit abba_prog)) = 1%nat.
 Proof. exact abba_fixed. Qed.
 
 (** a guard with a connective of every kind; the hypotheses of [C20_guard_equiv] hold and
@@ -195,7 +230,7 @@ Example C20_example_guard :
   let e := BVImplies (BVXor (BVSymbol "p" 1) (BVNot (BVSymbol "q" 1) 1) 1)
                      (BVOr (BVAnd (BVSymbol "p" 1) (BVSymbol "r" 1) 1) (BVLiteral 1 0) 1) in
   wt e = true /\ expr_is_bool e = true /\
-  match expr_to_guard true [] e with
+  match expr_to_guard no_repairs true [] e with
   | Ok (t', g) => length t' = 3%nat /\
       map (fun k => bdd_eval (fun i => N.testbit k (N.of_nat i)) g) [0; 1; 2; 3; 4; 5; 6; 7]
       = [false; true; true; false; false; true; true; true]
@@ -208,7 +243,7 @@ Example C20_example_history :
   let prog := [ONew (BVAnd t0 t1 1); ONew val0; ONew val1; OIte 0 1 2; ONew (BVOr t0 t1 1); OIte 4 3 2;
                OBin (fun _ => 0) (fun a b => BVAdd a b 8) 3 5; OCoalesce 6; OImport 4;
                OGuard (BVXor t0 t1 1)] in
-  forall debug, match vrun debug true vinit prog with
+  forall debug, match vrun no_repairs debug true vinit prog with
                 | Ok st => length (vs_sums st) = 9%nat /\ length (last (vs_sums st) []) = 2%nat
                            /\ length (nth 6 (vs_sums st) []) = 3%nat /\ length (nth 7 (vs_sums st) []) = 2%nat /\ length (vs_terms st) = 2%nat
                 | Panic => False
@@ -223,7 +258,7 @@ Example C20_example_den :
   let add := fun a b => BVAdd a b 8 in
   let prog := [ONew t0; ONew val0; ONew val1; ONew val2; OIte 0 1 2; OIte 0 2 3; ONew t1; OIte 6 4 3;
                OBin (fun _ => 0) add 4 5; OBin (fun _ => 0) add 7 5; OCoalesce 9] in
-  match vrun true false vinit prog with
+  match vrun all_repairs true true vinit prog with
   | Ok st =>
       let s := fun i => nth i (vs_sums st) [] in
       map (fun i => length (s i)) [4; 5; 7; 8; 9; 10]%nat = [2; 2; 3; 2; 4; 4]%nat /\
@@ -238,3 +273,17 @@ Example C20_example_den :
   | Panic => False
   end.
 Proof. vm_compute. split; reflexivity. Qed.
+
+(** the two expressions of the refutations are plain terminals for the repaired variant, in
+    the debug build: an and of an 8-bit comparison and a boolean if-then-else has two
+    terminals and the truth table of the conjunction *)
+Example C20_example_repaired_guard :
+  let e := BVAnd cmp8 bool_ite 1 in
+  wt e = true /\ expr_is_bool e = true /\
+  expr_to_guard no_repairs true [] e = Panic /\ expr_to_guard no_repairs false [] e = Panic /\
+  match expr_to_guard all_repairs true [] e with
+  | Ok (t', g) => t' = [cmp8; bool_ite] /\
+      map (fun k => bdd_eval (fun i => N.testbit k (N.of_nat i)) g) [0; 1; 2; 3] = [false; false; false; true]
+  | Panic => False
+  end.
+Proof. vm_compute. repeat split. Qed.
